@@ -32,6 +32,19 @@ Inductive site_class :=
                              own locals: c13_walks_in_place_*, c13_post_walk_readonly_independent *)
   | WalkInternal          (* an async fn of the unwinder itself: awaiting it can only suspend where IT awaits, i.e. (by the same list)
                              finally in a SymbolProvider method *)
+  | OrderedContainer      (* a BTreeMap / BTreeSet: iteration is ascending by key whatever the insertion order and whatever any hash seed;
+                             the map built per frame from the overlapping unloaded modules is a function of the SET of (name, offset)
+                             pairs: c13_unloaded_offsets_order_independent / _determined; with hash containers in their place the
+                             printers depend on the iteration order: c13_unloaded_hash_containers_refuted *)
+  | DumpOrderList         (* not a map at all: MinidumpUnloadedModuleList::iter() is the Vec of the stream in file order (the field
+                             ProcessState.unloaded_modules has the same NAME as StackFrame.unloaded_modules; the scan is name based) *)
+  | SupplierSide          (* state inside a SymbolSupplier (feature `http`): a per-file once-cell of the same type as the Symbolizer's
+                             per-module cell.  The theorems take the supplier as a function key -> outcome (C12 config.outc): "the same
+                             symbols" is the premise of the property, a supplier whose answers depend on timing is outside it *)
+  | FeatureGatedProvider  (* the debuginfo SymbolProvider (feature `debuginfo-symbols`, off in every build the check runs): a map that is only
+                             looked up by module key, one futures Mutex per module around a lookup-only SymbolMap, a scratch value per OS
+                             thread.  Not covered by the theorems (they are about the breakpad Symbolizer); listed so that the enumeration
+                             of cells is complete and a NEW cell there is noticed *)
   | InPlaceByIndex.       (* join_all over iter_mut(): future i owns slot i, results are not collected at all:
                              c13_walks_in_place_interleaving_independent, c13_join_by_index *)
 
@@ -67,7 +80,11 @@ Definition modelled_interior_mutable_sites : list ((string * string * string) * 
   (("breakpad-symbols/lib.rs", "struct Symbolizer.stats", "Mutex<HashMap<String,SymbolStats>>"), SymbolizerC12);
   (("breakpad-symbols/lib.rs", "new", "symbols:CacheMap::default()"), SymbolizerC12);
   (("breakpad-symbols/lib.rs", "new", "pending_stats:Mutex::default()"), SymbolizerC12);
-  (("breakpad-symbols/lib.rs", "new", "stats:Mutex::default()"), SymbolizerC12)
+  (("breakpad-symbols/lib.rs", "new", "stats:Mutex::default()"), SymbolizerC12);
+  (("breakpad-symbols/http.rs", "struct HttpSymbolSupplier.cached_file_paths", "CacheMap<FileKey,CachedAsyncResult<(PathBuf,Option<Url>),FileError>>"), SupplierSide);
+  (("unwind/symbols/debuginfo.rs", "struct Impl.symbols", "HashMap<ModuleKey,Mutex<SymbolMap>>"), FeatureGatedProvider);
+  (("unwind/symbols/debuginfo.rs", "new", "Mutex::new(sm)"), FeatureGatedProvider);
+  (("unwind/symbols/debuginfo.rs", "struct PerThread.inner", "CacheMap<std::thread::ThreadId,UnsafeCell<T>>"), FeatureGatedProvider)
 ].
 
 (* what the per-thread future `.map(|(i, (stack, thread))| async move { .. })` uses from outside itself *)
@@ -103,4 +120,19 @@ Definition modelled_walk_await_callees : list (string * site_class) := [
   ("get_caller_by_scan", WalkInternal); ("get_caller_by_scan32", WalkInternal); ("get_caller_by_scan64", WalkInternal);
   ("get_caller_frame", WalkInternal); ("get_file_path", SymbolizerC12); ("instruction_seems_valid", WalkInternal);
   ("instruction_seems_valid_by_symbols", WalkInternal); ("walk_frame", SymbolizerC12)
+].
+
+(* ---- round 5, second pass: iterations over ORDERED containers (BTreeMap / BTreeSet) on the way to the report, and the
+   fields declared with such a type.  A field that changes to a HashMap / HashSet leaves this list and enters
+   hash_iteration_sites: both theorems break *)
+Definition modelled_ordered_iteration_sites : list ((string * string * string) * site_class) := [
+  (("processor/processor.rs", "check_for_bitflips", "forregin&exception_details.instruction_registers"), OrderedContainer);
+  (("processor/process_state.rs", "print_json", "frame.unloaded_modules.iter("), OrderedContainer);
+  (("processor/process_state.rs", "print_json", "self.unloaded_modules.iter("), DumpOrderList);
+  (("unwind/lib.rs", "print", "for(name,offsets)in&frame.unloaded_modules"), OrderedContainer)
+].
+Definition modelled_ordered_container_fields : list ((string * string * string) * site_class) := [
+  (("processor/processor.rs", "struct ExceptionDetails.instruction_registers", "BTreeSet<&'staticstr>"), OrderedContainer);
+  (("processor/op_analysis.rs", "struct OpAnalysis.registers", "BTreeSet<&'staticstr>"), OrderedContainer);
+  (("unwind/lib.rs", "struct StackFrame.unloaded_modules", "BTreeMap<String,BTreeSet<u64>>"), OrderedContainer)
 ].
